@@ -368,6 +368,9 @@ class SVGShape:
                 return False
             if any(abs(lv - rv) > tolerance for lv, rv in zip(l_args, r_args)):
                 return False
+            # arc flags select a different arc; they are not coordinates
+            if l_cmd in ("a", "A") and tuple(l_args[3:5]) != tuple(r_args[3:5]):
+                return False
         return True
 
     def normalize_opacity(self, inplace=False):
